@@ -457,7 +457,46 @@ func (e *Env) call(n *ast.CallExpr) Val {
 			g.fail("gocall %s: not a single plain result", name)
 		}
 		return res[0]
-	case "entry": // entry(e): the value of e when the current loop was entered (loop invariants only)
+	case "mhas", "mvals": // mhas(m) / mvals(m): the membership and value arrays of a Go map (arguments of theory functions over maps)
+		need(1)
+		m := e.tr(args[0])
+		if m.Ptr != nil {
+			m = e.deref(m, fn.Name)
+		}
+		kv, ok := g.sorts.mapKV[m.Sort]
+		if !ok {
+			g.fail("%s() on sort %s", fn.Name, m.Sort)
+		}
+		h, mv := g.sorts.mapHeap(m.Sort)
+		if fn.Name == "mhas" {
+			return Val{Sort: "(Array " + kv[0] + " Bool)", Term: fmt.Sprintf("(mhas_%s (select %s %s))", mv, g.heapGet(e.state(), h), m.Term)}
+		}
+		return Val{Sort: "(Array " + kv[0] + " " + kv[1] + ")", Term: fmt.Sprintf("(mval_%s (select %s %s))", mv, g.heapGet(e.state(), h), m.Term)}
+	case "entry": // entry(e): the value of e when the current loop was entered (loop invariants only);
+		// entry(N, e): the value of e when loop N of the function (a loop not nested in another) was entered (postconditions, hints)
+		if len(args) == 2 {
+			lit, ok := args[0].(*ast.BasicLit)
+			if !ok {
+				g.fail("entry(N, e): N must be a loop ordinal")
+			}
+			ord, _ := strconv.Atoi(lit.Value)
+			var st *State
+			if g.topFrame != nil {
+				for h, o := range g.topFrame.loopOrd {
+					if o == ord {
+						st = g.topFrame.loopEntry[h]
+					}
+				}
+			}
+			if st == nil {
+				g.fail("entry(%d, ...): no such loop, or it has not been entered on the way here", ord)
+			}
+			saveCur, saveOld := e.cur, e.inOld
+			e.cur, e.inOld = st, false
+			v := e.tr(args[1])
+			e.cur, e.inOld = saveCur, saveOld
+			return v
+		}
 		need(1)
 		if e.loopEntry == nil {
 			g.fail("entry(...) is only meaningful in a loop invariant")
